@@ -339,6 +339,35 @@ class Registry:
         raise OutOfSubset(f"call of {type(f).__name__}")
 
     def call_starred(self, eng, node, st):
+        """f(a, ..., **mapping) / obj.m(a, ..., **mapping): modelled only when the mapping is the ONLY keyword part and the callee's contract declares which
+        parameter receives it (opts 'star_kwargs:<param>'; the callee gets its own copy, so mutations of it are not written back). Everything else is refused."""
+        if any(isinstance(a, ast.Starred) for a in node.args) or len(node.keywords) != 1 or node.keywords[0].arg is not None:
+            raise OutOfSubset(f"starred call at line {node.lineno}")
+        mapping_expr = node.keywords[0].value
+        f = node.func
+
+        def apply(c, args, mapping, s, self_expr):
+            star = [o.split(":", 1)[1] for o in c.opts if o.startswith("star_kwargs:")]
+            if len(star) != 1 or mapping.t[0] != "dict" or mapping.x is None:
+                raise OutOfSubset(f"**mapping passed to {c.key}, whose contract declares no star_kwargs parameter (line {node.lineno})")
+            return self.apply_contract(eng, c, args, {star[0]: mapping}, s, node, self_expr=self_expr)
+        out = []
+        if isinstance(f, ast.Name) and f.id not in st.vars and f.id not in eng.bound:
+            c = self.contracts.get(f.id)
+            if c is None:
+                raise OutOfSubset(f"call of unknown function {f.id} at line {node.lineno}")
+            self.check_resolution(eng, f.id, c)
+            for s, vs in eng.ev_seq(list(node.args) + [mapping_expr], st):
+                out += apply(c, vs[:-1], vs[-1], s, None)
+            return out
+        if isinstance(f, ast.Attribute):
+            for s, vs in eng.ev_seq([f.value] + list(node.args) + [mapping_expr], st):
+                fam = self.family_of(vs[0])
+                c = self.lookup_method(fam, f.attr) if fam is not None else None
+                if c is None or c.kind != "method":
+                    raise OutOfSubset(f"no contract for {fam}.{f.attr} (line {node.lineno})")
+                out += apply(c, vs[:-1], vs[-1], s, f.value)
+            return out
         raise OutOfSubset(f"starred call at line {node.lineno}")
 
     def is_class(self, name, eng):
@@ -971,6 +1000,8 @@ class Registry:
                 st.assume(t)
             # write back mutated arguments
             for m in c.modifies:
+                if f"star_kwargs:{m}" in c.opts:
+                    continue   # the callee's **kwargs dict is its own copy
                 idx = pnames.index(m)
                 self.write_back(eng, st, node, idx, m, cs.vars[m], self_expr)
             out.append((st, res))
